@@ -5,6 +5,7 @@
 // stdin, one run per line:
 //   run <P1|P2> <cutmode> <ecut> <seed> <slots> <capacity> <stack_factor>
 //       <kill_at_iter(-1=never)> <max_iters> <track_order> <fixed_step_limiter>
+//       <disable_integral_xs> <linear_loss_limit> <lowest_electron_energy> <min_range> <msc_emin> <msc_xs>  (<=0: default)
 //       <nprim> { pid E x y z dx dy dz evt }*
 // stdout per run:
 //   BEGIN <echo>
@@ -301,6 +302,16 @@ int main()
         cfg.stack_factor = verif::rd(is);
         is >> kill_at >> max_iters >> cfg.track_order;
         cfg.fixed_limit = verif::rd(is);
+        {
+            int dix;
+            is >> dix;
+            cfg.disable_integral_xs = (dix != 0);
+            cfg.linear_loss_limit = verif::rd(is);
+            cfg.lowest_sweep = verif::rd(is);
+            cfg.min_range = verif::rd(is);
+            cfg.msc_emin = verif::rd(is);
+            cfg.msc_xs = verif::rd(is);
+        }
         is >> nprim;
         std::vector<Primary> prims(nprim);
         for (auto& p : prims)
